@@ -332,6 +332,9 @@ def _divisors(n):
     return [k for k in range(1, n + 1) if n % k == 0]
 
 
+_INEXACT_PAIRS = [(W, k) for W in range(2, 400) for k in range(2, W + 1) if W % k == 0 and W * (k / W) != k]
+
+
 @builder('KAISAAssignment')
 def build_kaisa(rng):
     from kfac.assignment import KAISAAssignment
@@ -353,7 +356,11 @@ def _gen_kaisa_init(rng, model):
     from kfac.assignment import KAISAAssignment
     W = _world(rng)
     r = rng.random()
-    if r < 0.75:
+    if r < 0.12:
+        # worker counts k | W whose float product W * (k / W) is not exactly k (one ulp below): the corner the
+        # tolerance-and-round step of the constructor exists for
+        W, k = rng.choice(_INEXACT_PAIRS)
+    elif r < 0.75:
         k = rng.choice(_divisors(W))
     elif r < 0.9:
         k = rng.randrange(0, W + 1)
